@@ -232,6 +232,9 @@ func run(prop, tier, funcFilter string, verbose bool) (*report, error) {
 			if o.Timeout > secs {
 				secs = o.Timeout
 			}
+			if o.Kind == "lemma" && secs < 60 {
+				secs = 60 // lemmas are few and often need a second solver
+			}
 			if _, skip := exclSkip[o.Name]; skip {
 				r.Status = "excluded"
 				return
